@@ -155,6 +155,12 @@ func errorClass(err error) string {
 }
 
 func judge(c *testCase) outcome {
+	if p := os.Getenv("C18_DUMP"); p != "" {
+		// debugging aid: the last dumped case is the culprit when the
+		// backend dies with an unrecoverable fatal error (stack overflow)
+		b, _ := json.Marshal(c)
+		_ = os.WriteFile(p, b, 0o644)
+	}
 	mod, rej := lower(c)
 	if mod == nil {
 		return outcome{ok: true, class: rej}
